@@ -208,10 +208,73 @@ func c12SiblingCwd(ctx *core.Ctx, res *core.Result, idx int) {
 	res.Sig("sibling-cwd", pair[0], arg)
 }
 
+// c12LinkedTwice: one file is reached by two arguments, one of them through a symbolic link to a directory, and the change
+// still applies to its own result. Whatever the run does with the two names, the three modes agree: the bytes written in
+// place are the bytes --print-only prints, and applying the --diff output to the original gives them too.
+func c12LinkedTwice(ctx *core.Ctx, res *core.Result, idx int) {
+	r := ctx.Rand("c12link", idx)
+	base, _ := os.MkdirTemp(ctx.Tmp, "c12link")
+	defer os.RemoveAll(base)
+	src := "package sub\n\nfunc f() int {\n\treturn bump(1)\n}\n"
+	pt := "@@\nvar x expression\n@@\n-bump(x)\n+bump(x + 1)\n"
+	argsets := [][]string{{"real/sub", "link/sub"}, {".", "link/sub"}, {"real/sub/x.go", "link/sub/x.go"}, {"link/sub", "real/..."}, {"link/sub/...", "./..."}, {"link/sub", "real/sub", "link/sub/x.go"}}
+	args := argsets[r.Intn(len(argsets))]
+	setup := func() string {
+		d, _ := os.MkdirTemp(base, "t")
+		os.MkdirAll(filepath.Join(d, "real", "sub"), 0o755)
+		os.Symlink("real", filepath.Join(d, "link"))
+		os.WriteFile(filepath.Join(d, "real", "sub", "x.go"), []byte(src), 0o644)
+		os.WriteFile(filepath.Join(d, "p.patch"), []byte(pt), 0o644)
+		return d
+	}
+	rep := map[string]string{"p.patch": pt, "in.go": src, "args.txt": strings.Join(args, " ") + "   (link -> real)"}
+	outs := map[string]string{}
+	for _, mode := range []string{"--print-only", "--diff", ""} {
+		d := setup()
+		a := []string{"-p", "p.patch"}
+		if mode != "" {
+			a = append(a, mode)
+		}
+		cr := ctx.RunCLI(core.CLIOpts{Dir: d, Args: append(a, args...)})
+		res.Evals++
+		res.Ob("linked-twice-runs", 1)
+		if cc := cr.CrashClass(); cc != "" || cr.Exit != 0 {
+			res.Violate("C12/nonzero-exit/file-reached-under-two-names", fmt.Sprintf("[%s] exit %d: %s", mode, cr.Exit, core.Trunc(string(cr.Stderr), 300)), rep)
+			return
+		}
+		now, _ := os.ReadFile(filepath.Join(d, "real", "sub", "x.go"))
+		switch mode {
+		case "":
+			outs["inplace"] = string(now)
+		case "--print-only":
+			outs["print"] = string(cr.Stdout)
+		case "--diff":
+			outs["diff"] = string(cr.Stdout)
+		}
+		if mode != "" && string(now) != src {
+			res.Violate("C12/dry-run-wrote/file-reached-under-two-names", mode, rep)
+			return
+		}
+	}
+	rep["inplace.go"], rep["print.txt"], rep["diff.txt"] = outs["inplace"], outs["print"], outs["diff"]
+	if outs["inplace"] != outs["print"] {
+		res.Violate("C12/modes-disagree/file-reached-under-two-names", fmt.Sprintf("[arguments %s] the bytes written in place differ from what --print-only prints", strings.Join(args, " ")), rep)
+		return
+	}
+	if n := strings.Count(outs["diff"], "\n+++ "); n != 1 || !strings.Contains(outs["diff"], "+\treturn bump(1 + 1)") {
+		res.Violate("C12/modes-disagree/file-reached-under-two-names", fmt.Sprintf("[arguments %s] --diff prints %d file headers for one file that is written once", strings.Join(args, " "), n), rep)
+		return
+	}
+	res.Sig("linked-twice", strings.Join(args, " "))
+}
+
 func runC12(ctx *core.Ctx, idx int) *core.Result {
 	res := &core.Result{}
 	if idx%10 == 3 {
 		c12SiblingCwd(ctx, res, idx)
+	}
+	if idx%10 == 7 {
+		c12LinkedTwice(ctx, res, idx)
 	}
 	r := ctx.Rand("c12", idx)
 	g := gen.NewG(r)
